@@ -2264,6 +2264,10 @@ func runChildJobs(c *Ctx, jobs []childJob, cases *[]Case) error {
 			ops[3] = fmt.Sprintf("ad %s -", j.Api)
 		}
 		c.Res.Evaluations++
+		c.Planned("decode-child-jobs", 1)
+		if fatal[i] != "" || results[i] != nil {
+			c.Ran("decode-child-jobs", 1)
+		}
 		switch {
 		case fatal[i] != "":
 			key := "C13:fatal:" + entry
@@ -2349,16 +2353,29 @@ func firstLine(s string) string {
 	return "process died without a message"
 }
 
+// workRoot: the scratch directory of THIS checkout: next to where the driver asked for the result
+// (-out <root>/.work/...), else <root>/.work derived from the executable (<root>/.bin/corr), else a
+// private directory under the system's temporary directory. Never a path of another checkout.
 func workRoot() string {
-	exe, err := os.Executable()
-	if err == nil {
-		root := filepath.Join(filepath.Dir(filepath.Dir(exe)), ".work")
-		if os.MkdirAll(root, 0o755) == nil {
-			return root
+	var cands []string
+	for i, a := range os.Args {
+		if (a == "-out" || a == "--out") && i+1 < len(os.Args) {
+			if d := filepath.Dir(os.Args[i+1]); filepath.Base(d) == ".work" {
+				cands = append(cands, d)
+			}
 		}
 	}
-	_ = os.MkdirAll("/verif/.work", 0o755)
-	return "/verif/.work"
+	if exe, err := os.Executable(); err == nil && filepath.Base(filepath.Dir(exe)) == ".bin" {
+		cands = append(cands, filepath.Join(filepath.Dir(filepath.Dir(exe)), ".work"))
+	}
+	for _, d := range cands {
+		if os.MkdirAll(d, 0o755) == nil {
+			return d
+		}
+	}
+	d := filepath.Join(os.TempDir(), fmt.Sprintf("cedar-verif-work-%d", os.Getuid()))
+	_ = os.MkdirAll(d, 0o700)
+	return d
 }
 
 // ------------------------------------------------------------------ engine
